@@ -2,24 +2,88 @@
 import itertools
 
 MODEL = "C12"
+MODEL_ENTRY = "run_C12X"     # the extended alphabet of Model/Dispatcher.v (xstep); base ops behave as in run_C12
 PROP_FILES = ["Props/C12.v"]
 RULE = ("op sequences over {add(event in 2, priority in {-1,0,5}, stops?), dispatch(event in 3), get_listeners(e0), "
-        "get_listeners()} followed by a fixed query suffix (has_listeners(None/e), get_listener_priority for every "
-        "(event, listener), dispatch and get_listeners per event); exhaustive to the tier's length, seeded random to "
-        "length 40; non-trivial = >= 2 registrations and >= 1 dispatch before the suffix; distinct by op sequence")
-TRUSTED = ["each registration uses a fresh callable (the same callable registered twice is outside model and generator)"]
-ASSUMPTIONS = ["listeners are distinct callables; priorities are ints"]
+        "get_listeners()} exhaustive to length 4 (quick) / 5 (thorough); over a mixed alphabet of 27 ops that adds "
+        "has_listeners(e0 / None), get_listener_priority, add of an ALREADY REGISTERED callable (same event same priority, "
+        "same event other priority, other event), add without a priority (default), dispatch of an ALREADY STOPPED event, and "
+        "a listener that registers a new listener while it is called (same event at a lower / equal / higher priority, other "
+        "event): exhaustive to length 3, and to length 4 (quick) / 5 (thorough) over 14 of them; seeded random sequences to "
+        "length 40 over all op kinds (six priorities); every sequence is followed by a fixed query suffix "
+        "(has_listeners(None/e), get_listener_priority for every (event, callable), dispatch and get_listeners per event); "
+        "registrations go straight to an EventDispatcher, or through ApplicationConfig.add_event_listener (dispatcher made "
+        "on demand / set beforehand); every listener records the (event, event_name, dispatcher) it is called with and the "
+        "value dispatch returns is recorded; non-trivial = >= 2 registrations and >= 1 dispatch before the suffix; distinct "
+        "by (op sequence, registration route)")
+TRUSTED = ["callables are identified by creation order; a listener created by another listener during a dispatch gets the next id "
+           "at that moment (harness and model count alike)"]
+ASSUMPTIONS = ["priorities are ints",
+               "for an event where one callable is registered more than once the oracle says nothing about multiplicity, order "
+               "and get_listener_priority (the statement's 'each once' does not decide whether that is one listener or two); the "
+               "model, which is the code's behaviour - one call per registration, first bucket in dict order - is still compared",
+               "an event handed to dispatch with propagation already stopped reaches no listener (the title's 'until propagation "
+               "stops'); the listener signature (event, event_name, dispatcher) and dispatch returning the event are the "
+               "documented contract of the anchored class"]
 
 PRIOS = [-1, 0, 5]
 ALPHA = [[0, e, p, s] for e in (0, 1) for p in PRIOS for s in (0, 1)] + [[1, e] for e in (0, 1, 2)] + [[3, 0], [4]]
+# op kinds beyond the base alphabet: 2 has_listeners, 5 get_listener_priority(event, callable), 6 add an already registered
+# callable again [6, event, priority, callable], 7 add with the default priority [7, event, stops], 8 dispatch an already
+# stopped event, 9 add a listener that registers a new listener when called [9, event, priority, event2, priority2]
+XNEW = [[2, [0]], [2, None], [5, 0, 0], [5, 1, 0], [5, 0, 1],
+        [6, 0, 0, 0], [6, 0, 5, 0], [6, 1, 0, 0], [6, 0, 0, 1],
+        [7, 0, 0], [7, 0, 1], [7, 1, 0],
+        [8, 0], [8, 1],
+        [9, 0, 0, 0, 0], [9, 0, 0, 0, 5], [9, 0, 5, 0, -1], [9, 0, 0, 1, 0]]
+MIX = [[0, 0, 0, 0], [0, 0, 0, 1], [0, 0, 5, 0], [0, 0, 5, 1], [0, 1, 0, 0], [1, 0], [1, 1], [3, 0], [4]] + XNEW
+MIX4 = [[0, 0, 0, 0], [0, 0, 5, 0], [0, 0, 0, 1], [1, 0], [3, 0], [4], [2, [0]], [5, 0, 0],
+        [6, 0, 0, 0], [6, 0, 5, 0], [7, 0, 0], [8, 0], [9, 0, 0, 0, 0], [9, 0, 0, 0, 5]]
+
+
+def n_static(ops):
+    """callables the ops themselves create (those a listener creates during a dispatch come on top)"""
+    return sum(1 for o in ops if o[0] in (0, 7, 9))
 
 
 def suffix(ops):
-    n = sum(1 for o in ops if o[0] == 0)
+    n = n_static(ops) + (2 if any(o[0] == 9 for o in ops) else 0)
     suf = [[2, None]] + [[2, [e]] for e in (0, 1, 2)]
     suf += [[5, e, l] for e in (0, 1) for l in range(n)]
     suf += [[3, e] for e in (0, 1, 2)] + [[1, e] for e in (0, 1, 2)] + [[4]]
     return suf
+
+
+def rand_ops(rng, k):
+    ops, nc = [], 0
+    for _ in range(k):
+        r = rng.random()
+        e = rng.randint(0, 1)
+        p = rng.choice(PRIOS + [2, 7, -3])
+        if r < 0.34:
+            ops.append([0, e, p, 1 if rng.random() < 0.15 else 0])
+            nc += 1
+        elif r < 0.40:
+            ops.append([7, e, 1 if rng.random() < 0.15 else 0])
+            nc += 1
+        elif r < 0.47:
+            ops.append([9, e, p, rng.randint(0, 1), rng.choice(PRIOS + [2, 7, -3])])
+            nc += 1
+        elif r < 0.56:
+            ops.append([6, e, p, rng.randrange(nc + 1)])
+        elif r < 0.76:
+            ops.append([1, rng.randint(0, 2)])
+        elif r < 0.80:
+            ops.append([8, rng.randint(0, 1)])
+        elif r < 0.86:
+            ops.append([3, rng.randint(0, 2)])
+        elif r < 0.90:
+            ops.append([4])
+        elif r < 0.95:
+            ops.append([2, rng.choice([None, [0], [1], [2]])])
+        else:
+            ops.append([5, e, rng.randrange(nc + 2)])
+    return ops
 
 
 def gen(rng, tier, info):
@@ -29,26 +93,29 @@ def gen(rng, tier, info):
     for k in range(0, depth + 1):
         for seq in itertools.product(ALPHA, repeat=k):
             cases.append({"ops": list(seq)})
+    n_base = len(cases)
+    for k in range(1, 4):
+        for seq in itertools.product(MIX, repeat=k):
+            if any(o[0] in (2, 5, 6, 7, 8, 9) for o in seq):
+                cases.append({"ops": list(seq), "via": len(cases) % 3})
+    n_mix = len(cases) - n_base
+    for k in range(4, depth + 1):
+        for seq in itertools.product(MIX4, repeat=k):
+            if any(o[0] in (2, 5, 6, 7, 8, 9) for o in seq):
+                cases.append({"ops": list(seq), "via": 0})
+    n_mix4 = len(cases) - n_base - n_mix
     info["exhaustive"] = True
-    n_ex = len(cases)
     lens = {}
     for _ in range(nrand):
         k = rng.randint(depth + 1, 40)
         lens[k // 10 * 10] = lens.get(k // 10 * 10, 0) + 1
-        ops = []
-        for _ in range(k):
-            r = rng.random()
-            if r < 0.55:
-                ops.append([0, rng.randint(0, 1), rng.choice(PRIOS + [2, 7, -3]), 1 if rng.random() < 0.15 else 0])
-            elif r < 0.8:
-                ops.append([1, rng.randint(0, 2)])
-            elif r < 0.9:
-                ops.append([3, rng.randint(0, 2)])
-            else:
-                ops.append([4])
-        cases.append({"ops": ops})
-    info["distribution"] = {"exhaustive_sequences": n_ex, "exhaustive_max_len": depth, "random_sequences": nrand,
-                            "random_len_histogram": {str(k): v for k, v in sorted(lens.items())}}
+        cases.append({"ops": rand_ops(rng, k), "via": rng.randint(0, 2)})
+    info["distribution"] = {"exhaustive_sequences_base_alphabet": n_base, "exhaustive_max_len": depth,
+                            "exhaustive_sequences_mixed_alphabet_len_<=3": n_mix,
+                            "exhaustive_sequences_14_op_mixed_alphabet_len_4..%d" % depth: n_mix4,
+                            "random_sequences": nrand,
+                            "random_len_histogram": {str(k): v for k, v in sorted(lens.items())},
+                            "note": "the statement's 'exhaustive to length 7' is not what runs: 17^7 sequences; see RULE"}
     return cases
 
 
@@ -67,46 +134,104 @@ def wire(case):
 
 
 def describe(case):
-    names = {0: "add", 1: "dispatch", 2: "has_listeners", 3: "get_listeners", 4: "get_listeners()", 5: "get_listener_priority"}
-    return "ops (then query suffix): " + "; ".join("%s%s" % (names[o[0]], tuple(o[1:])) for o in case["ops"])
+    names = {0: "add", 1: "dispatch", 2: "has_listeners", 3: "get_listeners", 4: "get_listeners()", 5: "get_listener_priority",
+             6: "add-registered-callable-again(event, priority, callable)", 7: "add-with-default-priority(event, stops)",
+             8: "dispatch-already-stopped-event", 9: "add-listener-that-registers(event, priority, event2, priority2)"}
+    via = ["EventDispatcher.add_listener", "ApplicationConfig.add_event_listener (dispatcher made on demand)",
+           "ApplicationConfig.add_event_listener (dispatcher set beforehand)"][case.get("via", 0)]
+    return "registrations through %s; ops (then query suffix): " % via + "; ".join("%s%s" % (names[o[0]], tuple(o[1:])) for o in case["ops"])
 
 
 def run_impl(case):
     from clikit.api.event import EventDispatcher, Event
-    d = EventDispatcher()
-    log = []
-    listeners = []
+    via = case.get("via", 0)
+    config = None
+    if via == 0:
+        disp = [EventDispatcher()]
+    else:
+        from clikit.api.config.application_config import ApplicationConfig
+        config = ApplicationConfig()
+        if via == 2:
+            config.set_event_dispatcher(EventDispatcher())
+        disp = [config.dispatcher]
 
-    def mk(lid, stops):
+    def d():
+        # through the configuration the dispatcher exists once something is registered; before that nothing is
+        # registered anywhere, which is what an unused dispatcher answers
+        if disp[0] is None and config is not None:
+            disp[0] = config.dispatcher
+        return disp[0] if disp[0] is not None else EventDispatcher()
+
+    calls = []        # (callable id, event object, event name, dispatcher object) of the running dispatch
+    callables = []    # creation order = id
+
+    def mk(stops, registers):
+        cid = len(callables)
+
         def listener(event, event_name, dispatcher):
-            log.append(lid)
+            calls.append((cid, event, event_name, dispatcher))
             if stops:
                 event.stop_propagation()
-        listener.lid = lid
+            if registers is not None:
+                # uses the dispatcher it was handed, as a listener does
+                dispatcher.add_listener("e%d" % registers[0], mk(False, None), registers[1])
+        listener.cid = cid
+        callables.append(listener)
         return listener
 
+    def add(ev, l, prio=None):
+        name = "e%d" % ev
+        if config is not None:
+            (config.add_event_listener(name, l) if prio is None else config.add_event_listener(name, l, prio))
+        else:
+            (d().add_listener(name, l) if prio is None else d().add_listener(name, l, prio))
+
     obs = []
-    for o in full_ops(case):
+    for step, o in enumerate(full_ops(case)):
         try:
             if o[0] == 0:
-                l = mk(len(listeners), bool(o[3]))
-                listeners.append(l)
-                d.add_listener("e%d" % o[1], l, o[2])
+                add(o[1], mk(bool(o[3]), None), o[2])
                 obs.append([0])
-            elif o[0] == 1:
-                del log[:]
-                (d.dispatch("e%d" % o[1], Event()) if len(obs) % 2 else d.dispatch("e%d" % o[1]))
-                obs.append([1, list(log)])
+            elif o[0] == 7:
+                add(o[1], mk(bool(o[2]), None))
+                obs.append([0])
+            elif o[0] == 9:
+                add(o[1], mk(False, (o[3], o[4])), o[2])
+                obs.append([0])
+            elif o[0] == 6:
+                if o[3] < len(callables):
+                    add(o[1], callables[o[3]], o[2])
+                obs.append([0])
+            elif o[0] in (1, 8):
+                del calls[:]
+                dd = d()
+                name = "e%d" % o[1]
+                if o[0] == 8:
+                    ev = Event()
+                    ev.stop_propagation()
+                    ret = dd.dispatch(name, ev)
+                elif step % 2:
+                    ev = Event()
+                    ret = dd.dispatch(name, ev)
+                else:
+                    ev = None
+                    ret = dd.dispatch(name)
+                seen_events = set(id(c[1]) for c in calls)
+                args_ok = all(c[2] == name and c[3] is dd and isinstance(c[1], Event) for c in calls) and len(seen_events) <= 1 \
+                    and (ev is None or all(c[1] is ev for c in calls))
+                ret_ok = isinstance(ret, Event) and (ret is ev if ev is not None else all(c[1] is ret for c in calls))
+                obs.append([1, [c[0] for c in calls], [int(args_ok), int(ret_ok)]])
             elif o[0] == 2:
-                r = d.has_listeners(None if o[1] is None else "e%d" % o[1][0])
+                r = d().has_listeners(None if o[1] is None else "e%d" % o[1][0])
                 obs.append([2, 1 if r else 0])
             elif o[0] == 3:
-                obs.append([3, [l.lid for l in d.get_listeners("e%d" % o[1])]])
+                obs.append([3, [l.cid for l in d().get_listeners("e%d" % o[1])]])
             elif o[0] == 4:
-                r = d.get_listeners()
-                obs.append([4, [[int(k[1:]), [l.lid for l in v]] for k, v in r.items()]])
+                r = d().get_listeners()
+                obs.append([4, [[int(k[1:]), [l.cid for l in v]] for k, v in r.items()]])
             elif o[0] == 5:
-                p = d.get_listener_priority("e%d" % o[1], listeners[o[2]])
+                l = callables[o[2]] if o[2] < len(callables) else (lambda event, event_name, dispatcher: None)
+                p = d().get_listener_priority("e%d" % o[1], l)
                 obs.append([5, [] if p is None else [p]])
         except Exception as e:
             obs.append(["EXC", type(e).__name__])
@@ -118,6 +243,8 @@ def _canon(obs):
     for o in obs:
         if isinstance(o, list) and o and o[0] == 4:
             out.append([4, sorted(o[1])])
+        elif isinstance(o, list) and o and o[0] == 1:
+            out.append([1, o[1]])      # the call-argument / return-value flags are the oracle's business
         else:
             out.append(o)
     return out
@@ -133,56 +260,95 @@ def canon_model(case, obs):
 
 def oracle(case, obs):
     """The property itself, on the real observations."""
-    regs = []  # (ev, prio, lid, stops)
+    regs = []   # (ev, prio, callable id, registration index)
+    cal = []    # per callable: (stops, registers)
+
+    def new(ev, prio, stops, registers):
+        cal.append((stops, registers))
+        regs.append((ev, prio, len(cal) - 1, len(regs)))
+
+    def order(ev):
+        return sorted([r for r in regs if r[0] == ev], key=lambda r: (-r[1], r[3]))
+
+    def repeated(ev):
+        cs = [r[2] for r in regs if r[0] == ev]
+        return len(cs) != len(set(cs))
+
     for o, ob in zip(full_ops(case), obs):
         if ob and ob[0] == "EXC":
             return "exception:" + ob[1]
         if o[0] == 0:
-            regs.append((o[1], o[2], len(regs), o[3]))
-        elif o[0] in (1, 3):
-            mine = sorted([r for r in regs if r[0] == o[1]], key=lambda r: (-r[1], r[2]))
-            exp = [r[2] for r in mine]
+            new(o[1], o[2], bool(o[3]), None)
+        elif o[0] == 7:
+            new(o[1], 0, bool(o[2]), None)          # registered without a priority: the default, 0
+        elif o[0] == 9:
+            new(o[1], o[2], False, (o[3], o[4]))
+        elif o[0] == 6:
+            if o[3] < len(cal):
+                regs.append((o[1], o[2], o[3], len(regs)))
+        elif o[0] in (1, 8):
+            if ob[2][0] != 1:
+                return "listener-call-arguments"
+            if ob[2][1] != 1:
+                return "dispatch-return-value"
+            mine = order(o[1])          # the registrations SO FAR: what a listener registers meanwhile is not among them
+            cut = []
             if o[0] == 1:
-                cut = []
                 for r in mine:
                     cut.append(r[2])
-                    if r[3]:
+                    if cal[r[2]][0]:
                         break
-                if ob[1] != cut:
-                    return "dispatch-order"
-            elif ob[1] != exp:
+            if o[0] == 8 and ob[1] != []:
+                return "stopped-event-reached-a-listener"
+            if o[0] == 1 and not repeated(o[1]) and ob[1] != cut:
+                return "dispatch-order"
+            # a listener of another event, or one registered only during this dispatch, is never called - whatever the multiplicities
+            if any(c not in [r[2] for r in mine] for c in ob[1]):
+                return "dispatch-called-a-listener-not-registered-for-the-event-so-far"
+            # what the called listeners registered takes part from the next dispatch on
+            for c in ob[1]:
+                if c < len(cal) and cal[c][1] is not None:
+                    new(cal[c][1][0], cal[c][1][1], False, None)
+        elif o[0] == 3:
+            if not repeated(o[1]) and ob[1] != [r[2] for r in order(o[1])]:
                 return "get_listeners-order"
         elif o[0] == 2:
             exp = any(True for r in regs if o[1] is None or r[0] == o[1][0])
             if bool(ob[1]) != exp:
                 return "has_listeners"
         elif o[0] == 5:
-            exp = [r[1] for r in regs if r[0] == o[1] and r[2] == o[2]]
-            if ob[1] != exp:
+            mine = [r[1] for r in regs if r[0] == o[1] and r[2] == o[2]]
+            if len(mine) <= 1 and ob[1] != mine:
+                return "get_listener_priority"
+            if len(mine) > 1 and (len(ob[1]) != 1 or ob[1][0] not in mine):
                 return "get_listener_priority"
         elif o[0] == 4:
             evs = sorted(set(r[0] for r in regs))
-            exp = [[e, [r[2] for r in sorted([r for r in regs if r[0] == e], key=lambda r: (-r[1], r[2]))]] for e in evs]
-            if sorted(ob[1]) != exp:
+            if sorted(x[0] for x in ob[1]) != evs:
                 return "get_listeners-all"
+            for e, ls in ob[1]:
+                if not repeated(e) and ls != [r[2] for r in order(e)]:
+                    return "get_listeners-all"
     return None
 
 
 def nontrivial_key(case, obs):
     ops = case["ops"]
-    if sum(1 for o in ops if o[0] == 0) >= 2 and any(o[0] == 1 for o in ops):
-        return ops
+    if sum(1 for o in ops if o[0] in (0, 6, 7, 9)) >= 2 and any(o[0] == 1 for o in ops):
+        return [ops, case.get("via", 0)]
     return None
 
 
 def shrink(case):
     ops = case["ops"]
     for i in range(len(ops)):
-        yield {"ops": ops[:i] + ops[i + 1:]}
+        yield {"ops": ops[:i] + ops[i + 1:], "via": case.get("via", 0)}
+    if case.get("via", 0):
+        yield {"ops": ops, "via": 0}
 
 
 def neighbours(case):
     ops = case["ops"]
     for i in range(len(ops) + 1):
         for a in ([1, 0], [1, 1], [3, 0]):
-            yield {"ops": ops[:i] + [a] + ops[i:]}
+            yield {"ops": ops[:i] + [a] + ops[i:], "via": case.get("via", 0)}
